@@ -160,6 +160,13 @@ Theorem marshal_decodable_by_scanner_Change : forall v,
 Proof. exact scanner_reads_Change. Qed.
 Print Assumptions marshal_decodable_by_scanner_Change.
 
-(* STILL PARTIAL (stated, evaluated on every generated value by C04/Check.v, not proved):
-     marshal_decodable_by_scanner_Diff: scan_el of the marshalled Diff = per action the created
-     element, the objects of old, the objects of new, then the changesets. *)
+Theorem marshal_decodable_by_scanner_Diff : forall v,
+  wfb gen_schema "Diff" v = true ->
+  exists e, encode1 gen_schema "Diff" v = Ok e
+            /\ scan_el gen_schema e = (diff_objects (d_of "Diff") (d_of "Action") (d_of "OSM") v, None).
+Proof. exact scanner_reads_Diff. Qed.
+Print Assumptions marshal_decodable_by_scanner_Diff.
+
+(* All C04 statements of DESIGN.md section 5 are now theorems.  Domain restrictions (wfb) are listed in
+   Codec/Wf.v; static obligations on the regenerated schema are vm_compute lemmas in C04/Roundtrip.v
+   and C04/SchemaOk.v. *)
